@@ -45,6 +45,9 @@ pub(crate) struct Loop {
     pub start_ip: usize,
     // Placeholders for jumps to the end of the loop, updated when the loop compilation is complete
     pub jump_placeholders: Vec<usize>,
+    // The number of try blocks that were active when the loop was started,
+    // see `Frame::active_try_blocks`
+    pub active_try_blocks: usize,
 }
 
 #[derive(Clone, Debug, PartialEq)]
@@ -69,6 +72,9 @@ pub(crate) enum Arg {
 #[derive(Clone, Debug, Default)]
 pub(crate) struct Frame {
     loop_stack: Vec<Loop>,
+    // The number of try blocks that are currently being compiled, used when compiling `break` and
+    // `continue` to remove the catch points of the try blocks that are left by the jump.
+    active_try_blocks: usize,
     register_stack: Vec<u8>,
     local_registers: Vec<LocalRegister>,
     exported_ids: HashSet<ConstantIndex>,
@@ -334,7 +340,26 @@ impl Frame {
             start_ip: loop_start_ip,
             result_register,
             jump_placeholders: Vec::new(),
+            active_try_blocks: self.active_try_blocks,
         });
+    }
+
+    pub fn push_try_block(&mut self) {
+        self.active_try_blocks += 1;
+    }
+
+    pub fn pop_try_block(&mut self) {
+        self.active_try_blocks = self.active_try_blocks.saturating_sub(1);
+    }
+
+    // The number of try blocks that have been entered since the current loop was started
+    pub fn try_blocks_in_current_loop(&self) -> usize {
+        match self.loop_stack.last() {
+            Some(loop_info) => self
+                .active_try_blocks
+                .saturating_sub(loop_info.active_try_blocks),
+            None => 0,
+        }
     }
 
     pub fn push_loop_jump_placeholder(&mut self, placeholder_ip: usize) -> Result<(), FrameError> {
